@@ -591,3 +591,19 @@ fire("c11-goroutine-in-beginblock", "C11", ["C11.inventory"],
      (ABCI_D, "	k.SendCoinsFromStates(ctx, states)", "	done := make(chan struct{})\n	go func() { k.SendCoinsFromStates(ctx, states); close(done) }()\n	<-done"))
 silent("c11-membership-map", "C11",
        (ABCI_D, "	k.SendCoinsFromStates(ctx, states)", "	seen := map[string]bool{}\n	for _, s := range states {\n		seen[s.GetStateKey()] = true\n	}\n	if len(seen) <= len(states) {\n		k.SendCoinsFromStates(ctx, states)\n	}"))
+
+# ---------------- C12 ----------------
+fire("c12-export-without-history", "C12", ["C12.fields", "C12.prefix"],
+     ("x/cfeminter/genesis.go", "	genesis.StateHistory = k.GetAllMinterStateHistory(ctx)\n", ""))
+fire("c12-init-skips-trace-count", "C12", ["C12.fields", "C12.prefix"],
+     ("x/cfevesting/genesis.go", "	k.SetVestingAccountTraceCount(ctx, genState.VestingAccountTraceCount)\n", ""))
+fire("c12-new-prefix-not-exported", "C12", ["C12.prefix"],
+     ("x/cfevesting/keeper/msg_server_withdraw_all_available.go", "	ctx := sdk.UnwrapSDKContext(goCtx)\n", "	ctx := sdk.UnwrapSDKContext(goCtx)\n	ctx.KVStore(k.storeKey).Set([]byte(\"last-withdrawer\"), []byte(msg.Owner))\n"))
+fire("c12-unit-mismatch", "C12", ["C12.lossless"],
+     ("x/cfevesting/types/vesting_type_utils.go", "		return 24 * time.Hour * time.Duration(value), nil", "		return 12 * time.Hour * time.Duration(value), nil"))
+fire("c12-validate-skips-params", "C12", ["C12.validate"],
+     ("x/cfedistributor/types/genesis.go", "	return gs.Params.Validate()", "	return nil"))
+fire("c12-export-default-instead-of-state", "C12", ["C12.prefix"],
+     ("x/cfevesting/genesis.go", "	genesis.VestingAccountTraceCount = k.GetVestingAccountTraceCount(ctx)\n", "	genesis.VestingAccountTraceCount = uint64(len(genesis.VestingAccountTraces))\n"))
+silent("c12-export-through-helper", "C12",
+       ("x/cfevesting/genesis.go", "	genesis.VestingAccountTraces = k.GetAllVestingAccountTrace(ctx)\n", "	traces := k.GetAllVestingAccountTrace(ctx)\n	genesis.VestingAccountTraces = traces\n"))
